@@ -93,6 +93,33 @@ class HList(object):
         return len(self.items)
 
 
+class HHandleList(HList):
+    """list of symbolic length whose elements are integer handles of abstract objects (z3 Seq Int).  An HList whose
+    elements are all handles becomes one (class swap, in place, so aliases such as a reference-table slot keep pointing
+    at it) when a cut loop mutates it; only `+=` / append of handles and the contract-side view `hseq` are defined:
+    anything that would need the concrete items is Unsupported (undecided), never silently answered."""
+    @property
+    def items(self):
+        raise Unsupported("concrete items of a handle list of symbolic length")
+
+    @items.setter
+    def items(self, v):
+        raise Unsupported("concrete items of a handle list of symbolic length")
+
+    @property
+    def length(self):
+        return sym.SInt(z3.Length(self.hseq))
+
+
+def handle_seq_of_list(lst):
+    """contract-side view of a list of handles as a z3 Seq(Int)"""
+    if isinstance(lst, HHandleList):
+        return sym.ZSeq(lst.hseq) if not isinstance(lst.hseq, sym.ZSeq) else lst.hseq
+    if isinstance(lst, HList):
+        return sym.ZSeq.of([_handle(x) for x in lst.items])
+    raise Unsupported("not a list of object handles: %r" % (lst,))
+
+
 class HSetList(object):
     """list abstracted to the set of its elements (only `in` / `append` are homomorphic and allowed)"""
     def __init__(self, sset):
